@@ -295,7 +295,9 @@ impl Xot {
     /// assert!(xot.is_removed(text));
     /// ```
     pub fn is_removed(&self, node: Node) -> bool {
-        self.arena()[node.get()].is_removed()
+        // compare the handle's stamp with the slot's stamp, so that a handle
+        // to a removed node stays removed after its slot has been reused
+        node.get().is_removed(self.arena())
     }
 
     /// Get parent node.
